@@ -54,7 +54,7 @@ is affected by the look-behind. -/
 theorem attr_keeps_cdata_end : escape isEscText "a]]>b".toList = "a]]>b".toList := by decide
 
 /-- **`parse_ser`** — the writer is canonical up to layout: for **every** line length, reading
-what was written for a Capella-shaped document (`wfDoc`: no mixed content, non-blank text only,
+what was written for a Capella-shaped document (`wfDoc`: no mixed content, no empty-string text,
 one prefix per namespace, nothing redeclared, comments without `>`) gives the document back, with
 attributes and namespace declarations in the order the file imposes (`canonDoc`). -/
 theorem parse_ser (ll : Nat) (d : Doc) (hwf : wfDoc d = true) :
@@ -154,10 +154,19 @@ theorem mixed_content_lost :
     wfDoc d = false ∧ serialize 80 true [] true d = "<a>\n  <b/>\n</a>\n".toList := by
   decide
 
-/-- White-space-only text is dropped by the writer (`.strip()` test), e.g. a body of one space. -/
-theorem blank_text_lost :
+/-- An empty-string text (`element.text = ""`) is not written and reads back as "no text" — the
+same XML information, but not the same lxml value, hence outside `wfDoc`. -/
+theorem empty_text_reads_none :
+    let d : Doc := ⟨[], .mk "bodies".toList [] [] (some []) none [], []⟩
+    wfDoc d = false ∧ serialize 80 true [] true d = "<bodies></bodies>\n".toList ∧
+      (parse (serialize 80 true [] true d)).map (·.root.text) = some none := by
+  decide
+
+/-- White-space-only text **is** content on a childless element and is written as it is (before the
+repair of the `.strip()` test in `_serialize_element` a body of one space was silently dropped). -/
+theorem blank_text_kept :
     let d : Doc := ⟨[], .mk "bodies".toList [] [] (some " ".toList) none [], []⟩
-    wfDoc d = false ∧ serialize 80 true [] true d = "<bodies></bodies>\n".toList := by
+    wfDoc d = true ∧ serialize 80 true [] true d = "<bodies> </bodies>\n".toList := by
   decide
 
 /-- `>` in a sibling comment is written as `&gt;`, which a comment does not decode. -/
